@@ -9,10 +9,10 @@ BASE_NOTE = ("Trusted base: numpy/scipy/raysect/hypothesis as installed in /venv
 
 CHECKS = {
  "C02": dict(engine="hypothesis-given", technique="generated plasma states / tables / windows; oracles: total on covering window, bin-average by grid nesting, in-window fraction vs aligned reference grid, absolute erf / hyp2f1 bins from documented formulas, pi+sigma=no, linearity",
-             text="For each of the 7 line-shape classes, generated states (T<=0, flow, B at a chosen angle, un-normalised view), tables and spectral windows (containing / cutting / beside / one bin / fine). Decides normalisation (1e-9 R for Gaussian-built shapes), bin averaging (nesting), in-window fraction, polarisation split and stated ratios, zero-width. Stark is decided to 3e-4 R with the default integrator on bins <= FWHM/2 and to 2e-6 R with a tight integrator; coarser Stark bins are a recorded known finding.",
+             text="For each of the 7 line-shape classes, generated states (T<=0, flow, B at a chosen angle, un-normalised view), tables and spectral windows (containing / cutting / beside / one bin / fine). Decides normalisation (1e-9 R for Gaussian-built shapes), bin averaging (nesting), in-window fraction, polarisation split and stated ratios, zero-width. Stark is decided to 5e-5 R with the default integrator on the generated grids as they are (the coarse-bin defect found here was repaired) and to 2e-6 R with a tight integrator; one model object is also asked at two points of a two-state plasma (A, B, A) against fresh models in uniform plasmas, and after a second instance was used.",
              ref="DESIGN.md section 3, C02"),
  "C01": dict(engine="hypothesis-stateful", technique="stateful differential testing: live scene mutated through public setters vs scene rebuilt from the final configuration record (three RuleBasedStateMachines)",
-             text="Three state machines (plasma with passive models; plasma + beam with attenuator and beam models; plasma + laser with Thomson scattering) apply every public mutator to a live raysect scene and to a JSON record, with an observation (traced sight lines, beam density/direction samples, z_effective/ion_density) after two thirds of the mutators; each observation is compared with a scene built from scratch from the record by one canonical builder (1e-9, same exception type). Decides order/history independence for the generated histories (<= 25 steps).",
+             text="Three state machines (plasma with passive models; plasma + beam with attenuator and beam models; plasma + laser with Thomson scattering) apply every public mutator to a live raysect scene and to a JSON record, with an observation (traced sight lines, beam density/direction samples, z_effective/ion_density) after two thirds of the mutators; each observation is compared with a scene built from scratch from the record by one canonical builder (1e-9, same exception type). Decides order/history independence for the generated histories (<= 25 steps; half of them restricted to the rules of one theme, 'assign the same object again' rules included, the rays' spectral settings alternating between observations).",
              ref="DESIGN.md section 3, C01"),
  "C07": dict(engine="enumeration+hypothesis-given", technique="generated repositories written through update_*; oracle: table x independently computed conversion at every grid point, range / missing-data policy matrix over all accessors and flag combinations",
              text="Every OpenADAS accessor is exercised on generated repository content for all 8 flag combinations, elements and isotopes, present and missing keys: grid-point reproduction after the documented unit conversion (1e-9), non-negativity, zeros for non-positive arguments, raise/finite outside the tabulated range, isotope = element rates, RuntimeError or everywhere-zero null rates for missing data. A deterministic accessor x flag matrix runs in every tier.",
@@ -28,19 +28,19 @@ CHECKS = {
              text="map2d/map3d/map_vector2d/3d, psi_normalised >= 0, the toroidal/poloidal/normal basis and the magnetic field are checked on the bundled example and Generomak equilibria (both signs via psi -> s psi + c) and on synthetic ellipse / Solov'ev grids against analytic values within a derived third-order interpolation bound; algebraic identities at 1e-10.",
              ref="DESIGN.md section 3, C12"),
  "C15": dict(engine="hypothesis-stateful", technique="stateful model-based testing of every observer-group class against a list-of-dicts reference model; (class x attribute) coverage enforced",
-             text="A RuleBasedStateMachine per group class (7 classes) applies add / assign scalar / assign sequence (right and wrong length) / rename / replace / index / observe and compares every member attribute, group getter, parentage, lookup and observe count with the model after every rule; every (class, attribute) pair must be exercised in each run.",
+             text="A RuleBasedStateMachine per group class (7 classes) applies add / assign scalar / assign sequence (right and wrong length) / rename / replace / index / observe and compares every member attribute, group getter, parentage, lookup and observe count with the model after every rule; every (class, attribute) pair must be exercised in each run; a second group of the same class is interleaved (interference), scalars equal to values held by some members, and an enumerated pass over groups of 255-1000 members.",
              ref="DESIGN.md section 3, C15"),
  "C16": dict(engine="hypothesis-stateful+hypothesis-given", technique="fresh-instrument differential after generated setter histories; inequality checks; exact rational integration oracle for calibration",
              text="Spectrometer, CzernyTurnerSpectrometer and Polychromator: after any generated setter history every cached setting, pipeline class/kwargs and created pipeline equals that of an instrument constructed directly with the final parameters; range-covers-pixels and bin-width inequalities; calibrate() conserves the exact integral of the raysect spectrum over each pixel, with additivity, constant and linear relations.",
              ref="DESIGN.md section 3, C16"),
  "C17": dict(engine="hypothesis-given", technique="exact rational shoelace/centroid oracle over all vertex orders; seeded sampling with non-asymptotic Bernstein bounds against exact area fractions and moments",
-             text="Area, centroid and Pappus volume of generated simple polygons are compared with exact rational arithmetic for all 2n vertex orders; grid total volume = sum; emissivity_from_function: constants exact, sample points inside, hit fractions over an independent triangulation and first/second moments within 6-sigma-equivalent Bernstein bounds (RNG seeded from the case).",
+             text="Area, centroid and Pappus volume of generated simple polygons are compared with exact rational arithmetic for all 2n vertex orders; grid total volume = sum; emissivity_from_function: constants exact, sample points inside, hit fractions over an independent triangulation and first/second moments within 6-sigma-equivalent Bernstein bounds (RNG seeded from the case), also pooled over many calls at small sample counts incl. the default; polygon scales 1e-6 ... 1e3 m with scale-covariance relations.",
              ref="DESIGN.md section 3, C17"),
  "C03": dict(engine="hypothesis-given", technique="generated compositions and analytic mock rates; oracle: documented formulas re-evaluated in plain Python (scipy.quad for bremsstrahlung), exact guards, metamorphic linearity",
              text="Passive models (ExcitationLine, RecombinationLine, ThermalCXLine, TotalRadiatedPower, Bremsstrahlung) are called directly on real Plasma/Species objects with parameterised mock rates that depend on every argument and key. Window totals must equal the documented expressions (1e-9; bremsstrahlung per bin 1e-4 vs scipy.quad of Hutchinson 5.3.40), non-positive dependencies give exactly nothing, output is non-negative and linear in each density.",
              ref="DESIGN.md section 3, C03"),
  "C05": dict(engine="hypothesis-given", technique="generated beam/plasma states with analytic mock beam rates; oracle: statement's population-weighted mean / charged sum in plain Python, argument logging, min<=q<=max",
-             text="BeamCXLine and BeamEmissionLine emission() are called directly with mock rates that depend on every argument and key; window totals must equal (1/4pi) n_b n_r q with the population-weighted mean q (bounded by the individual coefficients) and (1/4pi) n_b sum Z_i n_i q_i; the arguments each coefficient receives (interaction energy, temperature, total ion density, Z_eff, |B|, equivalent density) are compared with an independent evaluation; exact zeros for zero beam/receiver density.",
+             text="BeamCXLine and BeamEmissionLine emission() are called directly with mock rates that depend on every argument and key; window totals must equal (1/4pi) n_b n_r q with the population-weighted mean q (bounded by the individual coefficients) and (1/4pi) n_b sum Z_i n_i q_i; the arguments each coefficient receives (interaction energy, temperature, total ion density, Z_eff, |B|, equivalent density) are compared with an independent evaluation; exact zeros for zero beam/receiver density; a second instance interleaved (interference / repeat relations); sub-check 'scene': BeamMaterial.emission_function under generated placements of beam and plasma vs model.emission with plasma-space arguments from own matrices.",
              ref="DESIGN.md section 3, C05"),
  "C10": dict(engine="hypothesis-given", technique="rays built by construction (edges, corners, tangential, inside, axis-parallel); oracle: exact event-based chord lengths per cell with own matrices, merged-map and periodicity metamorphic relations, sample-exact replica of the documented midpoint scheme",
              text="RayTransferBox / RayTransferCylinder with generated grids, masks, voxel maps, steps and rigid transforms are traced with rays aimed at the interesting places; per-source entries must lie within max(2, k) integration steps of the exact chord (k = separate sub-chords), totals within (#active runs) steps, untouched / masked / -1 cells exactly 0, merged maps equal sums of their cells, rotated rays obey the period, and any exception is a violation.",
@@ -64,10 +64,10 @@ CHECKS = {
              text="Generated beam parameters, placements, attenuator settings, 1-3 ion species with non-uniform profiles and analytic stopping coefficients. The cross-section integral of Beam.density (48x48 Gauss-Legendre; polar rule inside the clamp ellipse) must equal P/(E m)/v * exp(-tau(z)) within the a-priori error bound of the documented trapezoid/linear-interpolation scheme; plus monotone on-axis decay, zeros outside [0,L] and outside the clamp, unit direction field whose streamlines keep x/sigma_x and y/sigma_y.",
              ref="DESIGN.md section 3, C04"),
  "C06": dict(engine="hypothesis-stateful", technique="stateful model-based testing: repository vs dict reference model, bit-for-bit read-back, file-set and stray-write invariants",
-             text="Rule-based state machine over all add_*/update_* functions of the 14 rate families (batched updates, rejected updates, reads) against a dict model keyed as the property states; every key is read back bit for bit (uint64 view), never-written neighbours must raise RuntimeError, the set of files must equal the set implied by the writes and a redirected HOME must stay empty. Exploration of generated histories (<=30 steps).",
+             text="Rule-based state machine over all add_*/update_* functions of the 14 rate families (batched updates, rejected updates, reads) against a dict model keyed as the property states; every key is read back bit for bit (uint64 view), never-written neighbours must raise RuntimeError, the set of files must equal the set implied by the writes, nothing may appear outside the (generated, oddly named) repository directory and a redirected HOME must stay empty; install_adf11* (directly and through install_files) and install_adf15 fed by independent writers; rejected updates incl. invalid content aimed at files that already hold data. Exploration of generated histories (<=30 steps).",
              ref="DESIGN.md section 3, C06"),
  "C19": dict(engine="enumeration+hypothesis-given", technique="exhaustive enumeration of the registry + generated Line pairs against a tuple-equality model",
-             text="Finite registry: every exported Element/Isotope x every identifier kind x letter-case spellings is looked up and must return the same object; all ordered species pairs are compared for ==/!=/hash; Z is compared with an independent periodic table. Exhaustive over the objects, so exploration is complete for the registry; Line equality/hash is sampled with Hypothesis.",
+             text="Finite registry: every exported Element/Isotope x every identifier kind x letter-case spellings is looked up and must return the same object; all ordered species pairs are compared for ==/!=/hash; Z is compared with an independent periodic table. Look-ups are repeated after equal copies and user-defined species were constructed; copies by constructor, pickle, deepcopy and cloned parent must be equal, equally hashed dict keys. Exhaustive over the objects, so exploration is complete for the registry; Line equality/hash (incl. other numeric spellings of a transition) is sampled with Hypothesis.",
              ref="DESIGN.md section 3, C19"),
 }
 
